@@ -1,5 +1,6 @@
 import OntVerif.Proofs.ExecBlock
 import OntVerif.Props.C17
+import OntVerif.Gen.ExecGlobals
 /-!
 # C02 — Every node derives the same state from the same blocks
 
@@ -87,6 +88,41 @@ theorem C02_divergence_needs_signer_difference (env : Env Tx Tree) (perm : List 
   exact hno ⟨b, hb, tx, ht, a, h⟩
 
 end
+
+/-! ## No hidden process-global state
+
+`executeBlock` above is a function of the node's persisted state, its state tree, the refreshed gas table, the block and the
+signer sets.  That is only a faithful picture of the Go code if execution keeps no OTHER state in the process: a package-level
+variable written while blocks execute survives from block to block but not across a restart, so a restarted node and a node
+that ran since genesis could derive different states from the same blocks (two ledgers replayed inside ONE process share such
+a variable and agree, which is why the differential harness cannot be the only tie here).  `Gen/ExecGlobals.lean` is
+regenerated from the source on every run: the set of package-level variables of the execution-path packages
+(`smartcontract/…`, `vm/neovm/…`, `core/store/ledgerstore`, `core/store/overlaydb`) that are assigned, element- or
+field-assigned, have their address taken or are mutated through `Store`/`Delete`/`Add`/… outside `func init()`. -/
+
+/-- the reviewed ones, and why each is not an input of execution:
+* `native.Contracts` - the native-contract registry, filled by the `Register…` functions the packages' `init`s call; constant
+  once the process runs;
+* `neovm.GAS_TABLE` - **modelled**: `Node.gasGlobal`, refreshed from the state at the start of every block
+  (`C02_table_from_state`: a function of the state once the state defines every key);
+* `wasmvm.CodeCache` - compiled wasm modules keyed by the hash of their code (a memo of a function of the code);
+* `wasmvm.nextServiceDataIdx`, `wasmvm.serviceData` - the handle table through which the wasm JIT calls back into the
+  running service; entries live for one invocation (the JIT is a stub in this sandbox). -/
+def reviewedProcessGlobals : List String :=
+  ["smartcontract/service/native.Contracts",
+   "smartcontract/service/neovm.GAS_TABLE",
+   "smartcontract/service/wasmvm.CodeCache",
+   "smartcontract/service/wasmvm.nextServiceDataIdx",
+   "smartcontract/service/wasmvm.serviceData"]
+
+/-- **Execution has no hidden process-global state beyond the reviewed variables** - in particular no memo of a governed
+opcode fee that would survive `refreshGlobalParam`.  Re-checked by the kernel against the regenerated fact. -/
+theorem C02_no_hidden_process_state :
+    OntVerif.Gen.ExecGlobals.runtimeWritten.map (·.1) = reviewedProcessGlobals := by decide
+
+/-- the scan is not vacuous: it covers the execution-path packages and sees their package-level variables -/
+theorem C02_process_state_scan_nonvacuous :
+    30 ≤ OntVerif.Gen.ExecGlobals.scannedPackages ∧ 150 ≤ OntVerif.Gen.ExecGlobals.packageLevelVars := by decide
 
 /-! ## The two nodes of the property: validated vs. fallback signer derivation (C17) -/
 
